@@ -288,7 +288,8 @@ def run(R):
                 fl = [e for e in (o.place or {}).get("p", []) if isinstance(e, dict) and "ty" in e and "f" in e]
                 return fl[-1]["ty"] if fl else ua.local_ty(o.arg)
             ko = F.origins(ua, c.args[1], depth=12)
-            key_ok = any(o.kind == "call" and short(o.call.name).endswith("GroupKey as core::clone::Clone>::clone") for o in ko) and \
+            # (the key handed over is this row's key: cloned here, or borrowed and cloned where the map needs an owned one)
+            key_ok = all(o.kind == "arg" or (o.kind == "call" and F.TRANSPARENT.search(short(o.call.name))) for o in ko) and \
                 any(o.kind == "arg" and oty(o).endswith("aggregate_execution::GroupKey") for o in ko)
             io = F.origins(ua, c.args[2], depth=12, through_calls=False)
             idx_ok = bool(io) and all(o.kind == "arg" and oty(o) == "usize" for o in io)
